@@ -365,8 +365,18 @@ class Check:
             "wall_s": round(wall, 2),
             "violations": len({f["key"] for f in self.failures}) + (1 if (self.broken and not self.failures) else 0),
         }
-        (VERIF / "evidence").mkdir(exist_ok=True)
-        (VERIF / "evidence" / f"{self.prop}.json").write_text(json.dumps(ev, indent=1, default=str))
+        # keys the evidence schema types: an extra of the wrong type is kept under <key>_note
+        typed = {"exhaustive": bool, "states": int, "transitions": int, "traces_validated_against_impl": int,
+                 "programs": int, "disagreements_checked": int, "explanation": str}
+        cov = ev["coverage"]
+        for k, t in typed.items():
+            if k in cov and (not isinstance(cov[k], t) or (t is int and isinstance(cov[k], bool))):
+                cov[k + "_note"] = cov.pop(k)
+        # evidence describes runs against /repo itself; runs against another tree ($GEFF_REPO:
+        # seeded changes, builders' worktrees) are kept apart
+        evdir = VERIF / ("evidence" if str(REPO) == "/repo" else ".scratch_evidence")
+        evdir.mkdir(exist_ok=True)
+        (evdir / f"{self.prop}.json").write_text(json.dumps(ev, indent=1, default=str))
         for ln in lines:
             print(ln, flush=True)
         print(f"{self.prop} {self.tier}: obligations {n_ok}/{n_obl}, cases {self.evaluations} "
